@@ -329,7 +329,13 @@ def handleFunctionDef (c : Ctx) (s : State) (n : Name) (async : Bool) (decos : L
       else if fl.isClassmethod then { func with kind := .classMethod }
       else func
     let func := if fl.isOverload then { func with overloads := func.overloads + 1 } else { func with hasSig := true }
-    { contents := put s.contents func, cur := none }          -- `_push` … `_pop`: `currentAttr = None`
+    let contents := put s.contents func
+    -- an existing function is re-entered with `builder.push`, which (unlike `_push`) leaves `currentAttr`
+    -- alone: the docstring statement of the body then reaches `visit_Expr` with the attribute still current
+    let contents := match reuse, doc, s.cur with
+      | true, some d, some a => upd contents a (fun o => { o with doc := some (cleandoc d) })
+      | _, _, _ => contents
+    { contents := contents, cur := none }                     -- `_pop`: `currentAttr = None`
 
 /-- `visit_ClassDef` … `depart_ClassDef` as seen from the enclosing scope -/
 def handleClassDef (s : State) (n : Name) (bases : List Base) (doc : Option (List Char)) : State :=
